@@ -45,7 +45,7 @@ def sourceHashes : List (String × String) :=
    ("binaryExpr: findex switch", "48c75e35f0734e48"),
    ("unaryExpr: findex switch", "7c446f5014699902"),
    ("isArithmeticAction", "f57163de29913322"),
-   ("run.go assign", "cba47e3270d77930"),
+   ("run.go assign", "bc12620dcf6fb973"),
    ("run.go _return", "a27f80f01fc3a454"),
    ("run.go neg", "200badd1f78ebdba"),
    ("run.go bitNot", "dbce9a8788bf2dae"),
@@ -53,18 +53,24 @@ def sourceHashes : List (String × String) :=
    ("op.go quo", "88d5dd115428d689"),
    ("op.go lower", "d81ccb894c300fc6")]
 
--- closure fragment (Model/Closures.lean): copy of the extractor output on the reviewed tree (/repo at 2e388d6)
+-- closure fragment (Model/Closures.lean): copy of the extractor output on the reviewed tree (/repo at ba001d8). Reviewed since the
+-- model was written (2e388d6): da35a0b adds the hidden slot of a ranged pointer-to-array; 8bd8040 + 6ebc898 mark named variables
+-- redeclared in their own scope by a multi-variable `:=` (and changed the multi-define path of run.go assign); d26dd9e removes the
+-- reset of the function literal's own temporary slot from getFunc, whose call frame now comes from newCallFrame(fr, …) = newFrame(fr, …)
+-- with the root's run id — none of it is in the fragment or changes the mechanism modelled.
 /-- fingerprints of the functions and clauses Model/Closures.lean transcribes -/
 def closureHashes : List (String × String) :=
   [("newFrame", "da1db819d5067f56"),
+   ("newCallFrame", "43aa5e7f13021a5b"),
    ("frame.clone", "ccd71f62c6588b0a")] ++
   [("getFrame", "48dc117bdbd1af33"),
-   ("getFunc", "e1777a5459c1a52e"),
+   ("getFunc", "767f1bf470b0d0fd"),
    ("assignFromCall", "68cf8ed8c8ebe68c"),
    ("loopVarFor", "e36ed4f219e83478"),
    ("loopVarForEnd", "fe93ec26819e3e17"),
    ("loopVarKey", "850d1ef64799110f"),
-   ("loopVarVal", "fcbafb1e09580702")] ++
+   ("loopVarVal", "fcbafb1e09580702"),
+   ("rangeInt", "2c22101342e1ed12")] ++
   [("scope.lookup", "cc08c4552fe1b40f"),
    ("scope.add", "441317678d25bfc3"),
    ("scope.push", "0aefc5f773643548"),
@@ -74,13 +80,17 @@ def closureHashes : List (String × String) :=
   [("run.go assign: define branch", "3fc491eab953d151"),
    ("case funcLit#0", "f555f72b975797df"),
    ("case funcLit#1", "ff3c817d9d2647b4"),
+   ("case blockStmt: rangeStmt slots", "ea000d42ea48b396"),
+   ("case blockStmt: rangeStmt loop variables", "622ea483f6088b41"),
    ("case blockStmt: forStmt7 loop variable", "bab8f2008eed8949"),
-   ("case assignStmt, defineStmt: define allocates a slot", "6ceeedf57eb99d5a")]
+   ("case assignStmt, defineStmt: define allocates a slot", "f7438b5e8a549c39")]
 /-- the choices of the source Model/Closures.lean is parametrised by (`Mech`) -/
 def mechFacts : List (String × String) :=
   [("define allocates a fresh value", "true"),
    ("getFunc clones the frame", "true"),
    ("loopVarFor allocates a fresh value", "true"),
+   ("loopVarKey allocates a fresh value", "true"),
+   ("rangeInt keeps the value object of the bound", "true"),
    ("identExpr takes level and index from scope.lookup", "true"),
    ("loopVarForEnd copies back", "true")]
 end YaegiVerif.Expected.C01
